@@ -742,4 +742,214 @@ theorem variance_split_3d_total {Ωk Ωz : Type} [MeasurableSpace Ωk] [Measurab
   have hN' : (N : ℝ) ≠ 0 := Nat.cast_ne_zero.mpr (by omega)
   field_simp
 
+/-! ### objects reached through histories: the shape invariant, and why it is needed
+
+`RandMeth.update`, `reset_seed` and the `seed` / `mode_no` setters keep one `IncomprRandMeth` object alive across
+model replacements (3-D → 2-D and back), in-place model edits, new seeds and new mode numbers.  `__call__` hands
+`_cov_sample` (`rows × N`) and the positions (`dim × X`) to the kernel, which takes `|k|²` over the `rows` rows of the
+mode array but builds the phase and the projector over the `dim` rows of the positions.  The theorems above are about
+`rows = dim`; here the kernel is analysed for arbitrary `rows`, the bookkeeping of `update` is modelled, and the
+invariant `rows = model.dim`, `len z = mode_no` is proved for every operation history (the correspondence checks the
+same invariant on the real objects it drives through random histories). -/
+
+/-- the kernel's output when the mode array has `rows` rows and the positions have `dim` rows -/
+noncomputable def kernelFieldRows (k : Nat → Nat → ℝ) (z1 z2 : Nat → ℝ) (rows dim N d : Nat) (x : Nat → ℝ) : ℝ :=
+  summate_incompr k rows N z1 N z2 N (fun d' _ => x d') dim 1 d 0
+
+theorem kernelFieldRows_self (k : Nat → Nat → ℝ) (z1 z2 : Nat → ℝ) (dim N d : Nat) (x : Nat → ℝ) :
+    kernelFieldRows k z1 z2 dim dim N d x = kernelField k z1 z2 dim N d x := rfl
+
+/-- the projector the kernel builds from a `rows`-row mode array: `|k|²` runs over all `rows` rows -/
+noncomputable def projRows (k : Nat → Nat → ℝ) (rows j d : Nat) : ℝ :=
+  e1 d - k d j * k 0 j / absSq k rows j
+
+/-- the kernel's output for an arbitrary number of mode rows (pure unfolding of the generated definition) -/
+theorem kernelFieldRows_eq_sum (k : Nat → Nat → ℝ) (z1 z2 : Nat → ℝ) {dim d : Nat} (rows N : Nat) (hd : d < dim)
+    (x : Nat → ℝ) :
+    kernelFieldRows k z1 z2 rows dim N d x =
+      ∑ j ∈ range N, projRows k rows j d *
+        (z1 j * Real.cos (phase k dim j x) + z2 j * Real.sin (phase k dim j x)) := by
+  unfold kernelFieldRows projRows phase
+  rw [summate_incompr_spec, if_pos ⟨hd, Nat.one_pos⟩, incomprCell_real]
+  simp only [phaseOf_real]
+
+/-- contraction of that projector with the `dim` components of the wave vector that enter the phase:
+    `k_0 (1 − |k|²_dim / |k|²_rows)` — zero for `rows = dim`, not otherwise -/
+theorem projRows_contract (k : Nat → Nat → ℝ) {dim : Nat} (rows j : Nat) (hdim : 0 < dim) :
+    ∑ d ∈ range dim, projRows k rows j d * k d j = k 0 j * (1 - absSq k dim j / absSq k rows j) := by
+  unfold projRows
+  have h1 : ∑ d ∈ range dim, (e1 d - k d j * k 0 j / absSq k rows j) * k d j
+      = ∑ d ∈ range dim, (e1 d : ℝ) * k d j - k 0 j / absSq k rows j * ∑ d ∈ range dim, (k d j) ^ 2 := by
+    rw [mul_sum, ← sum_sub_distrib]
+    refine sum_congr rfl fun d _ => ?_
+    ring
+  rw [h1, sum_e1_mul (fun d => k d j) hdim, ← absSq_real]
+  ring
+
+theorem partialRows_hasDerivAt (k : Nat → Nat → ℝ) (z1 z2 : Nat → ℝ) {dim d c : Nat} (rows N : Nat)
+    (hd : d < dim) (hc : c < dim) (x : Nat → ℝ) :
+    HasDerivAt (fun t => kernelFieldRows k z1 z2 rows dim N d (Function.update x c t))
+      (∑ j ∈ range N, projRows k rows j d *
+        (z2 j * Real.cos (phase k dim j x) - z1 j * Real.sin (phase k dim j x)) * k c j) (x c) := by
+  have hfun : (fun t => kernelFieldRows k z1 z2 rows dim N d (Function.update x c t)) =
+      fun t => ∑ j ∈ range N, projRows k rows j d *
+        (z1 j * Real.cos (phase k dim j (Function.update x c t)) +
+         z2 j * Real.sin (phase k dim j (Function.update x c t))) := by
+    funext t; exact kernelFieldRows_eq_sum k z1 z2 rows N hd _
+  rw [hfun]
+  have hx : ∀ j, phase k dim j x = phase k dim j (Function.update x c (x c)) := by
+    intro j; rw [Function.update_eq_self]
+  simp only [hx]
+  refine HasDerivAt.fun_sum fun j _ => ?_
+  exact hasDerivAt_mode _ _ _ (hasDerivAt_phase (fun d' => k d' j) x hc (x c))
+
+/-- the divergence the kernel's field has when the mode array has `rows` rows -/
+noncomputable def divRows (k : Nat → Nat → ℝ) (z1 z2 : Nat → ℝ) (rows dim N : Nat) (x : Nat → ℝ) : ℝ :=
+  ∑ j ∈ range N, (z2 j * Real.cos (phase k dim j x) - z1 j * Real.sin (phase k dim j x)) *
+    (k 0 j * (1 - absSq k dim j / absSq k rows j))
+
+/-- **divergence for arbitrary mode-array shape**: `Σ_d ∂_d u_d = Σ_j (z₂ cos φ_j − z₁ sin φ_j) k_0j (1 − |k_j|²_dim/|k_j|²_rows)` -/
+theorem divergence_rows (k : Nat → Nat → ℝ) (z1 z2 : Nat → ℝ) {dim : Nat} (rows N : Nat) (hdim : 0 < dim)
+    (x : Nat → ℝ) :
+    ∑ d ∈ range dim, deriv (fun t => kernelFieldRows k z1 z2 rows dim N d (Function.update x d t)) (x d)
+      = divRows k z1 z2 rows dim N x := by
+  rw [sum_congr rfl fun d hd =>
+    (partialRows_hasDerivAt k z1 z2 rows N (mem_range.mp hd) (mem_range.mp hd) x).deriv]
+  unfold divRows
+  rw [sum_comm]
+  refine sum_congr rfl fun j _ => ?_
+  rw [← projRows_contract k rows j hdim, mul_sum]
+  exact sum_congr rfl fun d _ => by ring
+
+/-- **why the invariant is needed**: a 3-row mode array (modes sampled for a 3-D model) used for a 2-D field gives a
+    field that is not divergence-free, although every wave vector is non-zero in both senses -/
+theorem stale_rows_not_divergence_free :
+    ∃ (k : Nat → Nat → ℝ) (z1 z2 : Nat → ℝ) (x : Nat → ℝ),
+      (∀ j < 1, absSq k 3 j ≠ 0) ∧ (∀ j < 1, absSq k 2 j ≠ 0) ∧
+      ∑ d ∈ range 2, deriv (fun t => kernelFieldRows k z1 z2 3 2 1 d (Function.update x d t)) (x d) ≠ 0 := by
+  refine ⟨fun d _ => if d = 1 then 0 else 1, fun _ => 0, fun _ => 1, fun _ => 0, ?_, ?_, ?_⟩
+  · intro j _; rw [absSq_real]; norm_num [sum_range_succ]
+  · intro j _; rw [absSq_real]; norm_num [sum_range_succ]
+  · rw [divergence_rows _ _ _ 3 1 (by norm_num)]
+    unfold divRows phase
+    simp only [absSq_real]
+    norm_num [sum_range_succ]
+
+/-- shapes held by one `IncomprRandMeth` object -/
+structure GenShape where
+  /-- `model.dim` of the generator's private model copy -/
+  dim : Nat
+  /-- `_mode_no` -/
+  modeNo : Nat
+  /-- number of rows of `_cov_sample` -/
+  rows : Nat
+  /-- length of `_z_1` and `_z_2` (= number of columns of `_cov_sample`) -/
+  nz : Nat
+deriving DecidableEq, Repr
+
+/-- the operations that can reach the generator (directly or through `SRF.__call__`, which calls
+    `generator.update(srf.model, seed)`) -/
+inductive GenOp where
+  /-- `update(model, seed)`: `differs` = `self.model != model`, `dim` = `model.dim`,
+      `reseed` = a seed was given and is not the present one -/
+  | update (differs : Bool) (dim : Nat) (reseed : Bool)
+  /-- `generator.seed = s`; `differs` = `s != self._seed` -/
+  | setSeed (differs : Bool)
+  /-- `generator.mode_no = n` -/
+  | setModeNo (n : Nat)
+  /-- `generator.reset_seed(…)` -/
+  | resetSeed
+  /-- `generator.mean_u = v` -/
+  | setMeanU
+  /-- `generator(pos)` -/
+  | call
+deriving DecidableEq, Repr
+
+/-- `reset_seed`: amplitudes get `mode_no` entries, `sample_sphere(model.dim, mode_no)` gets `model.dim` rows -/
+def GenShape.resample (s : GenShape) : GenShape := { s with rows := s.dim, nz := s.modeNo }
+
+def GenShape.step (s : GenShape) : GenOp → GenShape
+  | .update true d _ => GenShape.resample { s with dim := d }
+  | .update false _ reseed => if reseed then s.resample else s
+  | .setSeed differs => if differs then s.resample else s
+  | .setModeNo n => if n ≠ s.modeNo then GenShape.resample { s with modeNo := n } else s
+  | .resetSeed => s.resample
+  | .setMeanU => s
+  | .call => s
+
+/-- a freshly constructed generator -/
+def GenShape.init (dim modeNo : Nat) : GenShape := { dim, modeNo, rows := dim, nz := modeNo }
+
+/-- the invariant `__call__` relies on -/
+def GenShape.ok (s : GenShape) : Prop := s.rows = s.dim ∧ s.nz = s.modeNo
+
+theorem GenShape.step_ok (s : GenShape) (op : GenOp) (h : s.ok) : (s.step op).ok := by
+  cases op with
+  | update differs d reseed =>
+    cases differs
+    · cases reseed <;> simp [GenShape.step, GenShape.resample, GenShape.ok, h.1, h.2]
+    · simp [GenShape.step, GenShape.resample, GenShape.ok]
+  | setSeed differs => cases differs <;> simp [GenShape.step, GenShape.resample, GenShape.ok, h.1, h.2]
+  | setModeNo n =>
+    by_cases hn : n = s.modeNo
+    · simp [GenShape.step, hn, h]
+    · simp [GenShape.step, hn, GenShape.resample, GenShape.ok]
+  | resetSeed => simp [GenShape.step, GenShape.resample, GenShape.ok]
+  | setMeanU => exact h
+  | call => exact h
+
+/-- **shape invariant**: after every history of operations on one generator object the mode array has `model.dim` rows
+    and the amplitude arrays have `mode_no` entries -/
+theorem shape_invariant (dim modeNo : Nat) (ops : List GenOp) :
+    (ops.foldl GenShape.step (GenShape.init dim modeNo)).ok := by
+  have : ∀ (ops : List GenOp) (s : GenShape), s.ok → (ops.foldl GenShape.step s).ok := by
+    intro ops
+    induction ops with
+    | nil => intro s h; exact h
+    | cons op ops ih => intro s h; exact ih _ (s.step_ok op h)
+  exact this ops _ ⟨rfl, rfl⟩
+
+/-- a history with a dimension change 3 → 2 → 3, a mode-number change and kept seeds -/
+example : [GenOp.call, .update true 2 false, .call, .setModeNo 7, .update true 3 false, .setMeanU, .call].foldl
+    GenShape.step (GenShape.init 3 16) = { dim := 3, modeNo := 7, rows := 3, nz := 7 } := by decide
+
+/-- what the invariant excludes: an `update` that keeps the sampled modes when the model is replaced by one of a
+    lower dimension (a "cross-section of an isotropic field" shortcut) leaves a 3-row mode array in a 2-D generator -/
+example : ¬ GenShape.ok ({ (GenShape.init 3 16) with dim := 2 }) := by
+  simp [GenShape.ok, GenShape.init]
+
+/-- `IncomprRandMeth.__call__` for the arrays a generator in shape `s` holds -/
+noncomputable def genFieldShape (s : GenShape) (meanU var : ℝ) (k : Nat → Nat → ℝ) (z1 z2 : Nat → ℝ) (d : Nat)
+    (x : Nat → ℝ) : ℝ :=
+  meanU * e1 d + meanU * Real.sqrt (var / (s.modeNo : ℝ)) * kernelFieldRows k z1 z2 s.rows s.dim s.nz d x
+
+theorem genFieldShape_of_ok (s : GenShape) (h : s.ok) (meanU var : ℝ) (k : Nat → Nat → ℝ) (z1 z2 : Nat → ℝ) (d : Nat)
+    (x : Nat → ℝ) :
+    genFieldShape s meanU var k z1 z2 d x = genField meanU var k z1 z2 s.dim s.modeNo d x := by
+  unfold genFieldShape genField
+  rw [h.1, h.2, kernelFieldRows_self]
+
+/-- **every field generated along a history is divergence-free**: whatever sequence of model replacements (including
+    dimension changes), seed and mode-number changes led to the generator's present state, the field `__call__`
+    produces from arrays of the shapes it then holds has vanishing divergence (non-zero wave vectors) -/
+theorem history_divergence_free (dim0 modeNo0 : Nat) (ops : List GenOp) (meanU var : ℝ) (k : Nat → Nat → ℝ)
+    (z1 z2 : Nat → ℝ) (x : Nat → ℝ)
+    (hdim : 0 < (ops.foldl GenShape.step (GenShape.init dim0 modeNo0)).dim)
+    (hk : ∀ j < (ops.foldl GenShape.step (GenShape.init dim0 modeNo0)).modeNo,
+      absSq k (ops.foldl GenShape.step (GenShape.init dim0 modeNo0)).dim j ≠ 0) :
+    ∑ d ∈ range (ops.foldl GenShape.step (GenShape.init dim0 modeNo0)).dim,
+      deriv (fun t => genFieldShape (ops.foldl GenShape.step (GenShape.init dim0 modeNo0)) meanU var k z1 z2 d
+        (Function.update x d t)) (x d) = 0 := by
+  have hs := shape_invariant dim0 modeNo0 ops
+  simp only [genFieldShape_of_ok _ hs]
+  exact (genField_divergence_free meanU var k z1 z2 _ hdim hk x).2
+
+/-- the hypotheses of `history_divergence_free` are satisfiable after a 3-D → 2-D replacement -/
+example : 0 < ([GenOp.update true 2 false].foldl GenShape.step (GenShape.init 3 5)).dim ∧
+    ∀ j < ([GenOp.update true 2 false].foldl GenShape.step (GenShape.init 3 5)).modeNo,
+      absSq (fun d j => (j : ℝ) + 1 + d) ([GenOp.update true 2 false].foldl GenShape.step (GenShape.init 3 5)).dim j ≠ 0 := by
+  refine ⟨by decide, fun j _ => ?_⟩
+  rw [absSq_ne_zero_iff]
+  exact ⟨0, by decide, by positivity⟩
+
 end GSV.Props.C16
